@@ -83,6 +83,7 @@ pub fn prevote_scenario(sim: &mut Sim, steps: usize) {
     sim.note(|| format!("window: leader idx {} term {} majority {:?} minority {:?}", l, term, w.maj, minority));
     if let Some(m) = sim.mon.as_mut() {
         m.window = Some(w);
+        m.note("prevote-scenario: windows opened");
     }
     let rounds = (steps / 8).max(20);
     let mut connected = false;
